@@ -72,6 +72,20 @@ def operand_pairs(ops=('EU', 'AW'), props=('v0', 'v1')):
     A = [P0, N0, P1, N1, ('and', P0, P1), ('and', N0, P1), ('and', P0, N1), ('and', N0, N1)]
     return [(b, l, r) for b in ops for l in A for r in A if l != r]
 
+def unary_pairs(props):
+    """every unary operator applied directly to every unary operator (EX EX p is not EX p; idempotence holds for some only)"""
+    p0 = ('prop', props[0])
+    return [(a, (b, p0)) for a in UN for b in UN]
+
+def swapped_duplicates():
+    """sub-formulas with two free variables that are equal up to a swap of the variables (plain, <= 3 nested variables)"""
+    X, XX, XXX = ('var', 'x'), ('var', 'xx'), ('var', 'xxx')
+    out = []
+    for mk in (lambda a, b: ('jump', a, ('EF', ('var', b))), lambda a, b: ('jump', a, ('EX', ('EX', ('var', b)))), lambda a, b: ('EU', ('var', a), ('var', b))):
+        out.append(('exists', 'x', None, ('exists', 'xx', None, ('and', mk('x', 'xx'), ('not', mk('xx', 'x'))))))
+        out.append(('bind', 'x', None, ('exists', 'xx', None, ('exists', 'xxx', None, ('and', ('and', mk('x', 'xxx'), mk('xx', 'xxx')), ('and', ('jump', 'x', ('not', XX)), mk('xxx', 'x')))))))
+    return out
+
 def subformulas(phi):
     yield phi
     op = phi[0]
